@@ -425,9 +425,12 @@ def make_cases(ctx, rd, main):
         else:
             keys, system = SYSTEM_KEYS[tk], tk
         # the static table carries its own volume list: the phonon file's, other points (same / other count), any row order
-        tv = ["same", "shifted", "more", "fewer"][(i // 2) % 4] if tk != "none" else "same"
+        # (per block of three cases = the three modes: odd blocks on the phonon file's volumes as listed, even blocks on
+        # other points; rows reversed / shuffled in every other block of each kind)
+        j = i // 3
+        tv = ("same" if j % 2 == 1 else ["shifted", "more", "fewer"][(j // 2) % 3]) if tk != "none" else "same"
         ds = synth.make_dataset(rng, nv=nv, keys=keys, table_volumes=tv)
-        ro = ["as-listed", "reversed", "as-listed", "shuffled"][i % 4] if tk != "none" else "as-listed"
+        ro = ["as-listed", "as-listed", "shuffled", "reversed"][j % 4] if tk != "none" else "as-listed"
         if ro != "as-listed":
             el = ds["elast"]
             perm = list(range(len(el["volumes"])))
